@@ -2,6 +2,11 @@
 """Regenerates the C16 known-finding families (one entry per violation kind x constraint kind x
 class, classes at-limits / overflowing only) from the VIOLATION-SIG lines of a quick and a thorough
 run on the unchanged tree. Run by hand when the boundary alphabet changes; never at check time.
+Also writes /verif/known_c16_inputs.json (the failing inputs per tier and signature, as index ranges)
+from the files that recording runs leave in /verif/.build/c16rec:
+  rm -rf .build/c16rec; mkdir -p .build/c16rec
+  PV_C16_RECORD=/verif/.build/c16rec ./check C16 quick > q.log; PV_C16_RECORD=/verif/.build/c16rec ./check C16 thorough > t.log
+  tools/gen_c16_families.py q.log t.log
 usage: gen_c16_families.py <log> [<log> ...]"""
 import json, sys, re, glob
 K = '/verif/known_findings.json'
@@ -11,7 +16,9 @@ for log in sys.argv[1:]:
     for line in open(log):
         m = re.match(r'\s+(VIOLATION-SIG|known) x(\d+) (\S+)', line)
         if m:
-            sigs[m.group(3)] = sigs.get(m.group(3), 0) + int(m.group(2))
+            # (inputs that are not listed yet carry a marked signature: normalise it)
+            name = m.group(3).replace('!input-not-listed', '').replace('@', ':')
+            sigs[name] = sigs.get(name, 0) + int(m.group(2))
 examples = {}
 for f in sorted(glob.glob('/verif/replays/C16/*.json')):
     d = json.load(open(f)); v = d.get('violation', d)
@@ -46,3 +53,27 @@ for (prefix, contains), (n, ex) in sorted(fams.items()):
 k['findings'] = keep + new
 json.dump(k, open(K, 'w'), indent=1)
 print('C16 families: %d (was %d)' % (len(new), len(old)))
+
+# ---- listed inputs: ranges of failing case indices per tier and signature ----
+import os
+REC = '/verif/.build/c16rec'
+if os.path.isdir(REC):
+    per = {'quick': {}, 'thorough': {}}
+    for fn in glob.glob(REC + '/*.txt'):
+        for line in open(fn):
+            tier, sig, idx = line.rstrip('\n').split('\t')
+            if sig.endswith(':interior'):
+                continue
+            per[tier].setdefault(sig, set()).add(int(idx))
+    out = {}
+    for tier, m in per.items():
+        out[tier] = {}
+        for sig, idxs in sorted(m.items()):
+            xs = sorted(idxs); rs = []
+            for x in xs:
+                if rs and x == rs[-1][1] + 1: rs[-1][1] = x
+                else: rs.append([x, x])
+            out[tier][sig] = rs
+    json.dump(out, open('/verif/known_c16_inputs.json', 'w'), separators=(',', ':'))
+    print('listed inputs:', {t: sum(sum(b - a + 1 for a, b in rs) for rs in m.values()) for t, m in out.items()},
+          'ranges:', {t: sum(len(rs) for rs in m.values()) for t, m in out.items()})
